@@ -27,9 +27,11 @@ HARNESSES = [
          unwind=19, unwindset={"any_cb.0": 3, "lha_lz5_read.0": 9, "acb_setup.0": 21, "acb_setup.1": 21},
          units=["lib/lz5_decoder.c:lha_lz5_read"], timeout=300, bounds="arbitrary pos; one run of 8 commands",
          stubs=["any_cb", "output_byte/output_block: contract stubs (justified by lz5.outbyte)"]),
-    dict(name="lz5.outbyte", src="C09/lz5.c", entry="harness_outbyte", mode="safety", unwind=19,
+    dict(name="lz5.outbyte", src="C09/lz5.c", entry="harness_outbyte", mode="safety", unwind=19, flags=["--arrays-uf-always"],
+         units=["lib/lz5_decoder.c:output_byte,output_block"], timeout=300, bounds="arbitrary ring/pos, any output fill, any copy within the asserted contract"),
+    dict(name="lz5.init", src="C09/lz5.c", entry="harness_init", mode="safety", unwind=19,
          unwindset={"fill_initial.0": 14, "fill_initial.1": 257, "fill_initial.2": 257, "fill_initial.3": 257, "fill_initial.4": 129, "fill_initial.5": 111, "fill_initial.6": 19},
-         units=["lib/lz5_decoder.c:output_byte,output_block,lha_lz5_init,fill_initial"], timeout=300, bounds="arbitrary ring/pos, any output fill, any copy within the asserted contract"),
+         units=["lib/lz5_decoder.c:lha_lz5_init,fill_initial"], timeout=300, bounds="concrete: every write of the initial fill pattern is inside the 4 KiB ring"),
     dict(name="null.step", src="C09/null.c", entry="harness_null", mode="safety", unwind=21, unwindset={"acb_setup.0": 21, "acb_setup.1": 5}, units=["lib/null_decoder.c"], timeout=120,
          bounds="one read", stubs=["any_cb"]),
     dict(name="pm2.read", src="C09/pm2.c", entry="harness_read", defines=["READ_HARNESS", "BITS_ANY"], mode="safety",
@@ -75,6 +77,14 @@ HARNESSES = [
         ("pm2code", ["ELEM8", "TL=65", "NC=31"], 65, 31, "both"),
         ("pm2off", ["ELEM8", "TL=17", "NC=8"], 17, 8, "both"),
         ("lhtemp", ["TL=62", "NC=31"], 62, 31, "both"),
+        ("mid16", ["TL=33", "NC=15"], 33, 15, "both"),
         ("lhoff6", ["TL=126", "NC=63"], 126, 63, "thorough"),
     ] for k in ("expand", "add", "walk")
+    # add_codes_with_length at 31 symbolic code lengths needs > 10 min on a loaded machine: full sizes of that function in the thorough tier only
+    if not (k == "add" and tag in ("pm2code", "lhtemp") and tier == "both")
+] + [
+    dict(name="tree.add.%s" % tag, src="C09/tree.c", entry="harness_add", defines=d, mode="safety", rename_defs=BITS, unwind=tl + 2,
+         unwindset={"add_codes_with_length.0": nc + 1}, units=["lib/tree_decode.c:add_codes_with_length,read_next_entry"], timeout=3000, mem_gb=8, tier="thorough",
+         bounds="arbitrary tree of %d entries satisfying T, arbitrary build state satisfying B, %d arbitrary code lengths (real size)" % (tl, nc))
+    for tag, d, tl, nc in [("pm2code", ["ELEM8", "TL=65", "NC=31"], 65, 31), ("lhtemp", ["TL=62", "NC=31"], 62, 31)]
 ]
